@@ -272,6 +272,12 @@ def for_to_while(sh, lp, ordinal, inv_text, body_prefix):
     expr = t[lp['in_idx'] + 2:lp['open']].strip()
     s = '__s%d' % ordinal
     i = '__i%d' % ordinal
+    if expr.startswith('&mut '):
+        # mutable iteration over a Vec: `for P in &mut E { b }` ==> index loop with `let P = &mut E[i]`
+        base_m = _paren(expr[5:].strip())
+        label = t[lp['start']:lp['kw_idx']]
+        return 'let mut %s: usize = 0; %swhile %s < %s.len() %s { let %s = &mut %s[%s]; %s += 1; %s' % (
+            i, label, i, base_m, inv_text, pat, base_m, i, i, body_prefix)
     rev = False
     enum = False
     e = expr
